@@ -46,6 +46,11 @@ func HC17_blur() {
 		chose = chose[:A-1]
 		rt.Reach("not-considered")
 	}
+	if len(chose) > 1 && rt.Bool("chose-listed-descending") {
+		for i, j := 0, len(chose)-1; i < j; i, j = i+1, j-1 {
+			chose[i], chose[j] = chose[j], chose[i]
+		}
+	}
 	methodParams := &struct{ X int }{7}
 	current := vh.Params(known, chose, crit, methodParams)
 	props := map[string]interface{}{"randomSeed": float64(31)}
